@@ -95,6 +95,8 @@ def main():
             for f in os.listdir(d):
                 if os.path.isfile(os.path.join(d, f)):
                     shutil.copy(os.path.join(d, f), os.path.join(dst, f))
+                elif os.path.isdir(os.path.join(d, f)) and f not in ("target", ".git"):
+                    shutil.copytree(os.path.join(d, f), os.path.join(dst, f), dirs_exist_ok=True)   # e.g. bin/ with a fake git
             agent_meta = {}
             try:
                 agent_meta = json.load(open(os.path.join(d, "meta.json")))
